@@ -5,7 +5,7 @@ EXPLANATION = (
     "D1 MetadataEntry::to_filename / from_filename are mutually inverse tables over the 14 '+' files (from_filename as a match on literals, or as a search of a literal table of variants for the one whose to_filename equals the name); "
     "D2 is_valid_pkgdir requires exactly +COMMENT,+CONTENTS,+DESC (files rejected first), Metadata::is_valid tests exactly comment/contents/desc, read_metadata stores each entry in the field of the same name; "
     "D3 PkgDB::next splits the directory name at the LAST '-' and stores prefix->pkgbase, suffix->pkgversion, whole->pkgname; "
-    "D4 iteration skeleton: invalid directories continue, a valid one returns one Some(Ok), Package::read_metadata joins its own path with to_filename(entry); is_valid as a loop over a literal table of (field, message) is walked element by element by the evaluator and judged like the if-chain")
+    "D4 single pass: read_dir is called by open() only and next() only borrows the stored handle; iteration skeleton: invalid directories continue, a valid one returns one Some(Ok), Package::read_metadata joins its own path with to_filename(entry); is_valid as a loop over a literal table of (field, message) is walked element by element by the evaluator and judged like the if-chain")
 NOT_DECIDED = [
     "file-system enumeration semantics ('each once' is ReadDir's contract)",
     "content equality of fs::read_to_string",
@@ -317,6 +317,30 @@ def run(ctx):
         nf = [p for p in ret_paths(ps) if unwrap_err(p.end[1]) is not None and not is_propagated_err(p.end[1])]
         ok = bool(nf) and all(any(is_call(c.term, "Path::is_dir") and c.fact == ("eq", False) for c in p.conds()) for p in nf)
         ctx.check(ok, "D4-OPEN", OP, "neither", "neither file nor directory -> Err", "open() does not reject a path that is neither a directory nor a file", fn_span(body), nontrivial=False)
+
+    # ---- D4-SINGLE-PASS: the directory is opened once, by open(), and that one handle is what next() draws from ("each once" is ReadDir's
+    #      contract for ONE pass over ONE handle): nothing else in the module opens a directory listing, next() only borrows self.readdir
+    openers = set()
+    for k, f in fx.fns.items():
+        if f["kind"] in ("Fn", "AssocFn", "Closure") and (k.startswith("pkgdb::") or k.startswith("<pkgdb::")):
+            b = ctx.body(k)
+            if b is not None and any(mir.norm_path(t["func"]["path"]).endswith("fs::read_dir") or t["func"]["path"].endswith("::read_dir") for _, t in b.calls()):
+                openers.add(k.split("::{closure", 1)[0])
+    ctx.check(openers == {OP}, "D4-SINGLE-PASS", "pkgdb", "opened-once", "read_dir is called by PkgDB::open only",
+              "a directory listing is opened by %s: iteration may restart or run over a second handle, so packages can be listed twice" % sorted(openers - {OP} or openers or ["nothing"]))
+    ps = ctx.paths(NEXT)
+    if ps:
+        body = ctx.body(NEXT)
+        nx = [e for p in ps for e in p.events if e.kind == "call" and "ReadDir" in e.name and e.name.endswith("::next")] + \
+             [e for p in ps for e in p.events if e.kind == "call" and ev_is(e, "Iterator::find", "Iterator::find_map", "Iterator::map_while", "Iterator::filter", "Iterator::by_ref") and "ReadDir" in (e.data.get("full") or "") + " ".join(str(g) for g in (e.data.get("gargs") or ()))]
+        from_self = bool(nx) and all(mentions(e.args[0], lambda s_: s_[0] == "field" and s_[3] == "readdir" and deval(s_[1]) == ("param", 1)) for e in nx)
+        ctx.check(from_self, "D4-SINGLE-PASS", NEXT, "draws-from-self.readdir", "entries are taken from self.readdir",
+                  "next() does not take its entries from the handle stored by open() (self.readdir)", fn_span(body))
+        mut = sorted({e.name.split("::")[-1] for p in ps for e in p.events if e.kind == "call" and e.args and isinstance(e.args[0], tuple) and e.args[0][0] == "refmut"
+                      and isinstance(e.args[0][1], tuple) and e.args[0][1][0] == "field" and e.args[0][1][3] == "readdir" and not ev_is(e, "Option::as_mut", "Option::as_deref_mut", "Option::iter_mut")} |
+                     {"assignment" for p in ps for e in p.events if e.kind == "store" and isinstance(e.place, tuple) and mentions(e.place, lambda s_: s_[0] == "field" and s_[3] == "readdir" and deval(s_[1]) == ("param", 1))})
+        ctx.check(not mut, "D4-SINGLE-PASS", NEXT, "handle-only-borrowed", "next() only borrows self.readdir",
+                  "next() replaces or moves the stored handle (%s): the position in the directory can be lost or reset" % mut, fn_span(body))
 
     # ---- the accessors through which each listed package is observed
     for fld in ("pkgname", "pkgbase", "pkgversion"):
